@@ -12,7 +12,7 @@ from fractions import Fraction
 from harness import lib, numgen
 from harness.lib import q
 from harness.numgen import HEADER
-from harness.props import c02, c02_translate
+from harness.props import c02, c02_translate, c04_types
 
 TOL = Fraction(1, 10 ** 9)
 
@@ -173,9 +173,18 @@ def run(ctx):
                 'marginals and populations pairwise different nu (and gamma) -- checked at generation; '
                 'sweep cases = every (dimension, axis) kernel on unequal shapes with random grids/parameters (mass balance per sweep); driver cases = 2-5 '
                 'populations with every admissible frozen subset, nomut flags (2-D), constants and functions of time; isolated-subset cases = no migration, '
-                'no selection, one time step, every non-empty proper subset of populations; distinct = distinct parameter tuples; non-trivial = selection or migration present')
+                'no selection, one time step, every non-empty proper subset of populations; distinct = distinct parameter tuples; non-trivial = selection or migration present; '
+                'argument types (c04_types.py, enumerated on every run): frozen / nomut flags as int, float, numpy.bool_, numpy.int64/int32/uint8/float64 and 0-d bool/int/float arrays '
+                '(all flags in the type; only the frozen one; only the others; two frozen, one typed) for one_pop..five_pops with constants and with functions of time, every single '
+                'frozen population; _inject_mutations_2D..5D with every flag value combination in every type; numeric arguments (nu, gamma, h, m incl. zero, theta0, beta, T, initial_t) as '
+                'int / numpy.int64 / numpy.int32 / numpy.float64 / 0-d arrays, all at once and one class at a time; grid as list / tuple / float32 / longdouble / object / masked array, '
+                'density as masked array / ndarray subclass (integrators, remove_pop, filter_pops): the C04 predicates on the variant and the same result as the canonical call; '
+                'when the source obligation of an _inject_mutations_dD fails: every flag (value, type) assignment for that dimension and every frozen subset x type through the driver')
     ctx.assumptions += ['identities evaluated on float64 outputs at 1e-10 relative to the total mass (observed <= 1e-14 on the unchanged tree)',
-                        'isolated-subset comparison uses a single time step (the property says "with the same time steps")']
+                        'isolated-subset comparison uses a single time step (the property says "with the same time steps")',
+                        'argument types: only types the unchanged library accepts are compared (table and how it was established: harness/props/c04_types.py); a variant marked "maybe" '
+                        '(0-d arrays for the numeric arguments) may raise, and is compared with the canonical call only when it runs; numpy.float32 scalars and densities of a dtype other '
+                        'than native float64 are not generated (the unchanged library computes differently / reads the buffer as raw doubles)']
     c02_translate.obligations(ctx, tag='C04')
     rng = ctx.rng
     cases = []
@@ -448,15 +457,47 @@ def run(ctx):
                 c['_frozen'] = [f]
                 c['_what'] = '%s -> reorder_pops(%s) -> filter_pops([%d])' % (['', 'one_pop', 'two_pops', 'three_pops', 'four_pops', 'five_pops'][d], order, pos)
                 pipes_back.append(c); cases.append(c)
+    # ---- (8) argument types the API accepts (harness/props/c04_types.py): same values, other Python / numpy types
+    typed_flags = c04_types.flag_cases(ctx, rng)
+    typed_nomut = c04_types.nomut_cases(ctx, rng)
+    typed_numbers = c04_types.number_cases(ctx, rng)
+    typed_containers = c04_types.container_cases(ctx, rng)
+    typed_search = []
+    inject_search = []
+    t_inj = c04_types.inject_cases(ctx, rng)
+    injects += t_inj; cases += t_inj
+    t_rej = c04_types.reject_cases(ctx, rng)
+    rejects += t_rej; cases += t_rej
+    t_rem = c04_types.remove_cases(ctx, rng)
+    removes += t_rem; cases += t_rem
+    # targeted search: the source obligation of an influx function broke -> every flag (value, type) assignment for that dimension
+    for d in range(2, 6):
+        broken_ob = [o for o in ctx.obligations if o['name'].startswith('translate _inject_mutations_%dD' % d) and not o['ok']]
+        if broken_ob:
+            ctx.count('targeted flag search d=%d' % d)
+            sc = c04_types.search_inject(ctx, rng, d)
+            inject_search.append(sc); cases.append(sc)
+            typed_search += c04_types.search_drivers(ctx, rng, d)
+    typed = typed_flags + typed_nomut + typed_numbers + typed_containers + typed_search
+    seen_canon = set()
+    for v, canon, desc in typed:
+        if id(canon) not in seen_canon:
+            seen_canon.add(id(canon)); cases.append(canon)
+        v['_desc'] = desc
+        cases.append(v)
     for i, c in enumerate(cases):
         c['id'] = i
     res = lib.run_impl('c04_impl.py', [{k: v for k, v in c.items() if not k.startswith('_') and k != 'pop'} | ({'pop': c['pop']} if 'pop' in c else {}) for c in cases], timeout=3000)
     byid = {r['id']: r for r in res}
+    impl_errors = []
     for c in cases:
         r = byid[c['id']]
-        if 'error' in r:
+        if 'error' in r and c.get('_accept') == 'maybe':
+            # a type the unchanged library rejects (or treats differently): nothing to compare
+            ctx.count('typed variant not accepted by the library (allowed): ' + r['error'].split(':')[0])
+        elif 'error' in r:
             ctx.obligation('case %d (%s) runs' % (c['id'], c['kind']), False, 'predicate', r['error'])
-            ctx.violation('%s case failed in the implementation: %s' % (c['kind'], r['error']), data={'case': {k: v for k, v in c.items() if not k.startswith('_')}})
+            impl_errors.append((c, r['error']))
         else:
             c['_out'] = r['res']
             if 'shape' in r:
@@ -537,7 +578,8 @@ def run(ctx):
             worst = max(worst, e)
             if e > 1e-12:
                 ok = False
-        pred('mutation influx', ok, '_inject_mutations_%dD [density: %s]: density changed by something other than dt*theta0/2 (trapezoid-normalised) at the first interior point of each active population, or a frozen/nomut population received mutations (rel dev %.3g)' % (d, lname(c), worst),
+        tyt = '' if not c.get('ftypes') else '; frozen flags %s passed as %s%s' % (c['frozen'], c['ftypes'], '' if not c.get('ntypes') else ', nomut flags %s as %s' % (c['nomut'], c['ntypes']))
+        pred('mutation influx', ok, '_inject_mutations_%dD [density: %s%s]: density changed by something other than dt*theta0/2 (trapezoid-normalised) at the first interior point of each active population, or a frozen/nomut population received mutations (rel dev %.3g)' % (d, lname(c), tyt, worst),
              {'d': d, 'dev': worst, 'case': c, 'frozen': c['frozen']}, sig=('inject', c['id']))
     # (3) frozen marginals (direct driver calls in every layout, and the pipelines that end in an integrator)
     def pub(c):
@@ -607,8 +649,9 @@ def run(ctx):
         if '_out' not in c:
             continue
         pred('frozen+migration rejected', c['_out'] == 'ValueError',
-             '%d populations: population %d frozen with migration m%d%d=%g was accepted' % (len(c['shape']), c['frozen'] + 1, c['i'] + 1, c['j'] + 1, c['m']),
-             {'d': len(c['shape']), 'case': c}, sig=('reject', len(c['shape']), c['frozen'], c['i'], c['j']))
+             '%d populations: population %d frozen%s with migration m%d%d=%g%s was accepted' % (len(c['shape']), c['frozen'] + 1, (' (flag passed as %s)' % c['ftype']) if c.get('ftype') else '',
+                                                                                                 c['i'] + 1, c['j'] + 1, c['m'], (' (passed as %s)' % c['mtype']) if c.get('mtype') else ''),
+             {'d': len(c['shape']), 'case': c}, sig=('reject', len(c['shape']), c['frozen'], c['i'], c['j'], c.get('ftype'), c.get('mtype')))
     # (6) remove / filter
     for c in removes:
         if '_out' not in c:
@@ -621,8 +664,76 @@ def run(ctx):
         scale = max(abs(v) for v in want) or 1.0
         dev = max(abs(a - b) for a, b in zip(want, c['_out'])) / scale if len(want) == len(c['_out']) else float('inf')
         pred('remove/filter is trapezoid marginalisation', dev <= 1e-12,
-             '%s on a %d-D density [%s] is not the trapezoid marginal over the dropped populations in the original order (rel dev %.3g)' % (c['op'], d, lname(c), dev),
+             '%s on a %d-D density [%s%s] is not the trapezoid marginal over the dropped populations in the original order (rel dev %.3g)' % (
+                 c['op'], d, lname(c), ''.join('; %s passed as %s' % (k[:-5], c[k]) for k in ('grid_type', 'phi_type') if c.get(k)), dev),
              {'d': d, 'dev': dev, 'layout': lname(c), 'case': {a: b for a, b in c.items() if not a.startswith('_')}}, sig=('remove', c['id']))
+    # (8) argument types: the property predicates on the variant itself, and the same result as the call in canonical types
+    for v, canon, desc in typed:
+        if '_out' not in v:
+            continue
+        d = len(v['shape']); n = v['shape'][0]
+        if v['_frozen'] and d >= 2:
+            frozen_pred(v, v, desc, 'typed-frozen')
+        elif v['_frozen'] and d == 1:
+            sc_ = max(abs(x) for x in v['phi']) or 1.0
+            dev = max(abs(a - b) for a, b in zip(v['_out'], v['phi'])) / sc_ if len(v['_out']) == len(v['phi']) else float('inf')
+            pred('frozen marginal', dev == 0.0, '%s: the frozen population changed (rel dev %.3g)' % (desc, dev),
+                 {'d': 1, 'frozen': [0], 'dev': dev, 'case': pub(v)}, sig=('typed-frozen', v['id'], 0))
+        if '_out' not in canon:
+            continue
+        sc_ = max(abs(x) for x in canon['_out']) or 1.0
+        dev = max(abs(a - b) for a, b in zip(v['_out'], canon['_out'])) / sc_ if len(v['_out']) == len(canon['_out']) else float('inf')
+        if not dev <= c04_types.TOL_SAME:
+            dev = float('inf') if dev != dev else dev
+        pred('argument types: same result as with python bools / floats / float64 arrays', dev <= c04_types.TOL_SAME,
+             '%s: the result differs from the same call with the values given in the canonical types (rel dev %.3g of max|phi|)' % (desc, dev),
+             {'d': d, 'dev': dev, 'frozen': v['_frozen'], 'types': v['_types'], 'case': pub(v), 'canonical_case': pub(canon), 'result': v['_out'], 'canonical_result': canon['_out']},
+             sig=('types', v['id']))
+    # targeted search on _inject_mutations_dD: every (value, type) assignment of the flags
+    for sc in inject_search:
+        if '_out' not in sc:
+            continue
+        d = len(sc['shape']); nbad = 0
+        for (vals, types), got in zip(sc['combos'], sc['_out']):
+            want = c04_types.inject_expected(sc, vals)
+            if isinstance(got, dict):
+                ok = False; worst = float('inf'); why = got['error']
+            else:
+                gd = {j: dv for j, dv in got}
+                worst = 0.0
+                for j in set(gd) | set(want):
+                    w = want.get(j, 0.0)
+                    worst = max(worst, abs(gd.get(j, 0.0) - w) / max(abs(w), abs(sc['phi'][j]), 1e-300))
+                ok = worst <= 1e-12; why = 'rel dev %.3g' % worst
+            ctx.count('targeted flag search: _inject_mutations_%dD evaluations' % d)
+            if ok:
+                continue
+            nbad += 1
+            if nbad <= 4:
+                one = {k: x for k, x in sc.items() if k not in ('combos', 'kind') and not k.startswith('_')}
+                one.update(kind='inject', frozen=vals[:d], nomut=(vals[d:] if d == 2 else [False] * d), ftypes=types[:d])
+                if d == 2:
+                    one['ntypes'] = types[d:]
+                pred('mutation influx', False, '_inject_mutations_%dD with flags %s passed as %s: density changed by something other than the influx into the active populations, or a frozen/nomut population received mutations (%s) [targeted search after the source obligation broke]' % (d, vals, types, why),
+                     {'d': d, 'dev': worst, 'case': one, 'frozen': vals[:d]}, sig=('inject-search', sc['id'], tuple(vals), tuple(types)))
+        if nbad:
+            ctx.count('targeted flag search: failing (value, type) assignments d=%d' % d, nbad)
+        ctx.case(signature=('inject-search', sc['id']))
+    # cases the implementation refused to run (each one already failed its obligation above): replays for the first two per (kind, dimension,
+    # exception), after the predicate violations so that failing inputs of the property proper are reported first
+    nerr = {}
+    for c, err in impl_errors:
+        ek = (c['kind'], len(c['shape']), err.split(':')[0])
+        nerr[ek] = nerr.get(ek, 0) + 1
+        if nerr[ek] > 2:
+            continue
+        desc = c.get('_desc')
+        if desc is None and c['kind'] == 'inject' and c.get('ftypes'):
+            desc = '_inject_mutations_%dD, frozen flags %s passed as %s%s' % (len(c['shape']), c['frozen'], c['ftypes'], '' if not c.get('ntypes') else ', nomut flags %s as %s' % (c['nomut'], c['ntypes']))
+        if desc is None and (c.get('grid_type') or c.get('phi_type')):
+            desc = '%s, %s' % (c.get('op', c['kind']), ', '.join('%s passed as %s' % (k[:-5], c[k]) for k in ('grid_type', 'phi_type') if c.get(k)))
+        ctx.violation('%s case%s failed in the implementation: %s' % (c['kind'], (' [%s]' % desc) if desc else '', err),
+                      data={'case': {k: v for k, v in c.items() if not k.startswith('_')}})
     # ---- correspondence of the frozen-flag drivers against the model
     # (the model knows nothing about memory: whatever layout the density arrives in, and whichever PhiManip step produced it, the real
     # code must reproduce the model on the logical content)
@@ -638,14 +749,24 @@ def run(ctx):
             if pool:
                 st = (ctx.rng.randrange(len(pool)))
                 extra += [pool[(st + 7 * i) % len(pool)] for i in range(min(kk, len(pool)))]
-    sel = plain + extra
+    # argument types: one flag variant per dimension (rotating through types / patterns from run to run) and two canonical nomut cases
+    for d in range(2, 6):
+        pool = [v for v, _, _ in typed_flags if '_out' in v and len(v['shape']) == d]
+        if pool:
+            st = ctx.rng.randrange(len(pool))
+            extra += [pool[(st + 37 * i) % len(pool)] for i in range(ctx.pick(1, 4))]          # 37 is coprime to the pool sizes' small factors: distinct picks
+    pool = [cn for cn in {id(cn): cn for _, cn, _ in typed_nomut}.values() if '_out' in cn]
+    if pool:
+        st = ctx.rng.randrange(len(pool))
+        extra += [pool[(st + 3 * i) % len(pool)] for i in range(min(2, len(pool)))]
+    sel = list({c['id']: c for c in plain + extra}.values())
     def eqcase(c):
         return c.get('_eq', c)
     def describe(c):
         eq = eqcase(c)
         if '_what' in c:
             return 'pipeline %s [input density: %s] (frozen %s)' % (c['_what'], lname(c), c['_frozen'])
-        return '%d pops, frozen %s, density: %s' % (len(eq['shape']), c['_frozen'], lname(c))
+        return '%d pops, frozen %s, density: %s%s' % (len(eq['shape']), c['_frozen'], lname(c), ('; ' + c['_types'] + ('; nomut %s' % c['_nomut'] if '_nomut' in c else '')) if '_types' in c else '')
     exprs = [(c['id'], c02.coq_dcase(eqcase(c), c['_out'])) for c in sel]
     results = ctx.coq_cases('driver', HEADER, exprs, '(dcheck %s)' % q(TOL), 'rel 1e-09 of max|phi|', shard=ctx.pick(6, 16), timeout=1800)
     for c in sel:
